@@ -1,7 +1,7 @@
 """R-COUNT / R-LOOP: accumulation discipline of the evidence tables, and the data-flow of the figures
 at the candidate construction sites (R-FLOW)."""
 import ast
-from ..core import walk_own, norm, is_self_attr, parent_map, AnalysisError
+from ..core import walk_own, norm, is_self_attr, parent_map, AnalysisError, lit, is_lit, NOLIT
 from ..resolve import bind_args
 from ..report import Ob
 from .effect import PROFILE_FIELDS, _base_attr
@@ -13,7 +13,7 @@ CAP_CLASSES = {"InstanceCapMode"}
 
 
 def _is_init_value(v, target):
-    if isinstance(v, ast.Constant) and v.value == 0:
+    if is_lit(v, 0):
         return True
     if isinstance(v, (ast.Dict, ast.List)) and not (getattr(v, "keys", None) or getattr(v, "elts", None)):
         return True
@@ -32,8 +32,7 @@ def accumulator_writes(ctx):
         pm = None
         for n in walk_own(f.node):
             if isinstance(n, ast.AugAssign) and isinstance(n.target, ast.Subscript) and _base_attr(n.target) in PROFILE_FIELDS:
-                good = isinstance(n.op, ast.Add) and isinstance(n.value, ast.Constant) and n.value.value == 1 \
-                    and type(n.value.value) is int
+                good = isinstance(n.op, ast.Add) and is_lit(n.value, 1)
                 out.append((f, n, "inc" if good else "BAD", "increment by exactly 1" if good else "accumulator updated with `%s`" % norm(n)))
             elif isinstance(n, ast.Assign):
                 for t in n.targets:
